@@ -9,25 +9,28 @@ VARIABLE l
 tvars == <<l>>
 
 \* fold the recorded steps through the acceptor machine; every reaction must be allowed
-RECURSIVE BobRun(_, _, _, _)
-BobRun(st, steps, i, accept) ==
+RECURSIVE BobRun(_, _, _, _, _)
+BobRun(st, steps, i, accept, nsLogged) ==
   IF i > Len(steps) THEN [ok |-> TRUE, st |-> st, last |-> "none"]
   ELSE LET s == steps[i]
            allowed == BobReact(st, s.frame, s.cond, accept)
            hit == {r \in allowed : r[1] = s.reaction}
        IN IF hit = {} THEN [ok |-> FALSE, st |-> st, last |-> s.reaction]
-          ELSE LET r == CHOOSE x \in hit : TRUE IN
-               IF r[1] \in Terminal
-               THEN [ok |-> i = Len(steps), st |-> r[2], last |-> r[1]]
-               ELSE BobRun(r[2], steps, i + 1, accept)
+          ELSE IF s.reaction \in Terminal
+          THEN \* the final state must agree with what the code reports about the document and its progress
+               LET fin == {r \in hit : r[2].ns = nsLogged /\ r[2].prog = "some"} IN
+               IF fin = {} THEN [ok |-> FALSE, st |-> st, last |-> s.reaction]
+               ELSE [ok |-> i = Len(steps), st |-> (CHOOSE x \in fin : TRUE)[2], last |-> s.reaction]
+          ELSE BobRun((CHOOSE x \in hit : TRUE)[2], steps, i + 1, accept, nsLogged)
 
 BobOk(r) ==
   LET acc == IF r.accept = "Allow" THEN "Allow" ELSE "Reject"
-      R == BobRun(BobInit, r.steps, 1, acc) IN
+      R == BobRun(BobInit, r.steps, 1, acc, r.ns) IN
   /\ ~r.hang
   /\ R.ok /\ R.last = r.res          \* the session ended, with the result the machine prescribes
   /\ r.outcome = "ok"                 \* into_outcome() did not panic
-  /\ r.ns = R.st.ns                   \* the outcome names the document once a request for it was allowed
+  \* (R.ok includes: the outcome names the document exactly when a request for it was allowed)
+  /\ r.alive                          \* the store actor survived whatever the peer sent
   /\ (acc = "Reject" => ~r.changed)   \* a declined request changes nothing in the store
 
 RECURSIVE AliceRun(_, _)
@@ -38,7 +41,7 @@ AliceRun(steps, i) ==
        IN IF s.reaction \notin allowed THEN [ok |-> FALSE, last |-> s.reaction]
           ELSE IF s.reaction \in Terminal THEN [ok |-> i = Len(steps), last |-> s.reaction]
           ELSE AliceRun(steps, i + 1)
-AliceOk(r) == LET R == AliceRun(r.steps, 1) IN ~r.hang /\ R.ok /\ R.last = r.res
+AliceOk(r) == LET R == AliceRun(r.steps, 1) IN ~r.hang /\ R.ok /\ R.last = r.res /\ r.alive
 
 PairOk(r) ==
   /\ ~r.hang
@@ -52,6 +55,28 @@ PairOk(r) ==
                            /\ r.resB \in {"abort", "err"}
                            /\ r.what = "" => (r.resB = "abort" /\ r.resA = "abort")
 
+\* the public connect_and_sync against the public handle_connection over real local endpoints: the shapes of both
+\* results are what the live actor consumes (abort reason, namespace and peer of the error), see LiveSync.tla
+NetOk(r) ==
+  /\ ~r.hang /\ r.resA # "HANG" /\ r.resB \notin {"HANG", "PANIC"}
+  /\ IF r.fault_a # ""
+     THEN \* the initiator cannot start: it reports an error, the acceptor sees a stream without request
+          /\ r.resA \in {"Sync", "Close", "Connect"}
+          /\ r.resB \in {"Sync", "Open", "Close", "Connect", "noconn"} /\ ~r.changedB
+     ELSE IF r.accept # "Allow"
+     THEN LET reason == IF r.accept = "RejectNotFound" THEN "NotFound" ELSE "AlreadySyncing" IN
+          /\ r.resA = "RemoteAbort" /\ r.reasonA = reason
+          /\ r.resB = "Abort" /\ r.reasonB = reason /\ r.infoB.ns /\ r.infoB.peer
+          /\ ~r.changedB
+     ELSE IF r.fault_b # ""
+     THEN \* an allowed request that fails locally is reported with the document and the peer it was about
+          /\ r.resB = "Sync" /\ r.infoB.nsknown /\ r.infoB.ns /\ r.infoB.peer
+          /\ r.resA \in {"ok", "Sync", "Close"}
+     ELSE /\ r.resA = "ok" /\ r.resB = "ok"
+          /\ r.okA.ns /\ r.okA.peer /\ r.infoB.ns /\ r.infoB.peer
+          /\ r.okA.sent = r.infoB.recv /\ r.okA.recv = r.infoB.sent
+          /\ r.same
+
 Step ==
   /\ l <= Len(Rec)
   /\ LET r == Rec[l] IN
@@ -59,6 +84,7 @@ Step ==
          [] r.ev = "Bob" -> BobOk(r)
          [] r.ev = "Alice" -> AliceOk(r)
          [] r.ev = "Pair" -> PairOk(r)
+         [] r.ev = "Net" -> NetOk(r)
          [] OTHER -> FALSE
   /\ l' = l + 1
 TInit == l = 1
